@@ -39,7 +39,10 @@ void removePath(const std::string &p) {
     // the target of a symbolic link planted by `fm_prep symlink`
     std::remove((p + ".real").c_str());
 }
-struct Init { Init() { resetHooks().push_back([]() { St &st = state(); if (!st.path.empty()) removePath(st.path); }); } } init;
+// entity handles (and the File object) that outlive a `fm_close keep`: released only after the NEXT open of the path has been tried
+std::vector<Ent> keptHandles;
+std::vector<nix::File> keptFiles;
+struct Init { Init() { resetHooks().push_back([]() { keptHandles.clear(); keptFiles.clear(); St &st = state(); if (!st.path.empty()) removePath(st.path); }); } } init;
 
 // what is at the path: "~" nothing, "dir", or "<size> <fnv of the bytes>"
 std::string statTok() {
@@ -187,6 +190,7 @@ DRV_OP(fm_prep) {
 DRV_OP(fm_open) {
     if (a.size() != 4) throw ProtoError("fm_open arity");
     forget();
+    struct Release { ~Release() { keptHandles.clear(); keptFiles.clear(); } } release;
     return guarded([&]() {
         St &st = state();
         nix::Compression c = a[2] == "deflate" ? nix::Compression::DeflateNormal : a[2] == "none" ? nix::Compression::None : nix::Compression::Auto;
@@ -197,7 +201,19 @@ DRV_OP(fm_open) {
 }
 
 // fm_close: forget every entity handle, then close the file (the end of a session)
+// fm_close [keep] : close the file; with `keep` the entity handles in the slots (and the File object) stay alive while File::close()
+// runs and until the next fm_open has been tried: close() has to close what they hold open, or that open finds the file busy
 DRV_OP(fm_close) {
+    if (a.size() >= 2 && a[1] == "keep") {
+        St &st = state();
+        if (st.file) {
+            try { st.file.close(); } catch (...) {}
+            for (auto &kv : st.slots.m) keptHandles.push_back(kv.second);
+            for (auto &kv : st.slots.twin) keptHandles.push_back(kv.second);
+            keptFiles.push_back(st.file);
+            st.file = nix::File();
+        }
+    }
     forget();
     return "ok";
 }
